@@ -572,6 +572,10 @@ func ModelFileStat(f *os.File) (os.FileInfo, error) {
 }
 
 func ModelFileName(f *os.File) string {
+	if f == nil {
+		// (*os.File).Name reads a field of the receiver: on a nil *os.File the real method panics
+		panic("runtime error: invalid memory address or nil pointer dereference")
+	}
 	if d, ok := fsys().fds[f]; ok {
 		return d.name
 	}
